@@ -167,6 +167,7 @@ func cmdCheck(args []string) int {
 	repo := fs.String("repo", "/repo", "repository root")
 	verif := fs.String("verif", "/verif", "verif root")
 	noEvidence := fs.Bool("no-evidence", false, "do not write evidence/replay (used by explain and controls)")
+	list := fs.Bool("list", false, "print every obligation")
 	fs.Parse(args)
 	if t := os.Getenv("VERIF_TIER"); t != "" && *tier == "" {
 		*tier = t
@@ -180,6 +181,11 @@ func cmdCheck(args []string) int {
 	res, code := runProperty(m, *tier, *repo, *verif, nil)
 	if code == 2 {
 		return 2
+	}
+	if *list {
+		for _, o := range res.Obs {
+			fmt.Printf("%-10s %-8s %-60s %-28s %s\n", o.Status, o.Rule, o.Construct, o.Where, o.Detail)
+		}
 	}
 	wall := time.Since(start).Seconds()
 	if *tier == "thorough" && m.Controls != nil && !*noEvidence {
